@@ -1,6 +1,6 @@
 (* C02 -- returned memory honours the requested size, count and alignment.  Statements only. *)
 From Coq Require Import ZArith NArith List Bool.
-From FM Require Import GenArith FixedStack FixedStackProofs SmallCarve PoolSpec SlotProofs ListLib PoolSpecProofs PoolAlignProofs Stack StackProofs Iteration IterationProofs.
+From FM Require Import GenArith FixedStack FixedStackProofs SmallCarve PoolSpec SlotProofs ListLib PoolSpecProofs PoolAlignProofs Stack StackProofs Iteration IterationProofs InvalidRelease SmallList SmallRefine OrderedList OrderedRefine CollExec CollExecProofs CollInst CollSizes CollInstProofs UnorderedList UnorderedRefine Arena.
 Import ListNotations.
 Local Open Scope Z_scope.
 
@@ -58,3 +58,22 @@ Theorem C02_stack_result : forall fence, 0 <= fence -> forall s size al ans s' o
   end.
 Proof. exact alloc_spec. Qed.
 Print Assumptions C02_stack_result.
+
+(* the Exec models of memory_pool_collection (CollExec.v, all three list types): a served request is backed by
+   slots_needed(ns, bytes) whole nodes of the serving list, consecutive from the returned address, all out afterwards and
+   covering the requested bytes (for an array, element i therefore lies at base + i*size inside them) *)
+Theorem C02_collection_exec_served_request_covered : forall log2 s sp o s' x evs, UCPR s sp -> ucoll_answer_ok log2 s sp o ->
+  uc_step log2 s o = Some (s', ObsOk x, evs) -> forall try_ arr ns bytes, cc_spec_op (coll_bkt log2) o = OAlloc try_ arr ns bytes -> 0 <= bytes ->
+  exists sp', UCPR s' sp' /\ served_covered sp' ns bytes x.
+Proof. exact ucoll_served_request_covered. Qed.
+Print Assumptions C02_collection_exec_served_request_covered.
+Theorem C02_ordered_collection_exec_served_request_covered : forall log2 s sp o s' x evs, OCPR s sp -> ocoll_answer_ok log2 s sp o ->
+  oc_step log2 s o = Some (s', ObsOk x, evs) -> forall try_ arr ns bytes, cc_spec_op (coll_bkt log2) o = OAlloc try_ arr ns bytes -> 0 <= bytes ->
+  exists sp', OCPR s' sp' /\ served_covered sp' ns bytes x.
+Proof. exact ocoll_served_request_covered. Qed.
+Print Assumptions C02_ordered_collection_exec_served_request_covered.
+Theorem C02_small_collection_exec_served_request_covered : forall log2 s sp o s' x evs, SCPR s sp -> scoll_answer_ok log2 s sp o ->
+  sc_step log2 s o = Some (s', ObsOk x, evs) -> forall try_ arr ns bytes, cc_spec_op (coll_bkt_me 1%N log2) o = OAlloc try_ arr ns bytes -> 0 <= bytes ->
+  exists sp', SCPR s' sp' /\ served_covered sp' ns bytes x.
+Proof. exact scoll_served_request_covered. Qed.
+Print Assumptions C02_small_collection_exec_served_request_covered.
